@@ -18,8 +18,11 @@ What is modelled (smt.go, with the value hasher disabled as hive.go configures i
 
 smt's *extension nodes* are a storage-level compression of chains of inner nodes with one empty
 child each; by smt's own definition `hashNode(ext) = hashNode(ext.expand())` they do not change any
-digest, so the trie is modelled in expanded form: such a chain is `inner nil (inner nil …)`.
-Lazy loading / persistence of nodes is abstracted by `Trie.disk` of the glue model.
+digest.  The first half of this file is the trie in expanded form (`E`: such a chain is
+`inner nil (inner nil …)`), the second half (`T`) is the trie *with* extension nodes and smt's
+in-place surgery on them (`split` in `update`; join and absorb in `delete`), whose digest is by
+definition the digest of its expansion.  Lazy loading / persistence of nodes is abstracted by
+`Trie.disk` of the glue model.
 -/
 namespace Hive.Ads.SMT
 
@@ -107,5 +110,100 @@ def runOps (ops : List TOp) : E := ops.foldl applyOp .nil
 
 /-- The contents of a trie as a function. -/
 def E.fn (t : E) : Path → Option Val := fun p => t.get 0 p
+
+/-! ## the trie with extension nodes -/
+
+inductive T where
+  | nil
+  | leaf (p : Path) (v : Val)
+  | inner (l r : T)
+  /-- `bits` = `path[pathBounds[0] .. pathBounds[1])`; the child is an inner node -/
+  | ext (bits : List Bool) (child : T)
+deriving DecidableEq, Repr
+
+/-- One inner node with an empty sibling: the subtrie `x` hangs on side `b`. -/
+def link (b : Bool) (x : E) : E := if b then .inner .nil x else .inner x .nil
+
+/-- `ext.expand()`: the chain of inner nodes an extension stands for. -/
+def chain : List Bool → E → E
+  | [], x => x
+  | b :: bs, x => link b (chain bs x)
+
+def T.expand : T → E
+  | .nil => .nil
+  | .leaf p v => .leaf p v
+  | .inner l r => .inner l.expand r.expand
+  | .ext bits c => chain bits c.expand
+
+/-- `hashNode`: an extension node hashes as its expansion. -/
+def T.digest {H : Type} (h : Hash H) (t : T) : H := t.expand.digest h
+
+/-- `countCommonPrefixBits`: the common prefix of two bit strings. -/
+def lcp : List Bool → List Bool → List Bool
+  | a :: as, b :: bs => if a = b then a :: lcp as bs else []
+  | _, _ => []
+
+/-- An extension node is only created for a non-empty run of bits. -/
+def mkExt : List Bool → T → T
+  | [], c => c
+  | b :: bs, c => .ext (b :: bs) c
+
+/-- An inner node with `x` on side `m` and `y` on the other side. -/
+def innerOn (m : Bool) (x y : T) : T := if m then .inner y x else .inner x y
+
+/-- `smt.update` at depth `d`. -/
+def T.update : T → Nat → Path → Val → T
+  | .nil, _, p, v => .leaf p v
+  | .leaf q w, d, p, v =>
+    let c := lcp (p.drop d) (q.drop d)
+    if c.length = (p.drop d).length then .leaf p v                 -- prefixlen == depth(): replace
+    else mkExt c (innerOn (bit p (d + c.length)) (.leaf p v) (.leaf q w))
+  | .inner l r, d, p, v =>
+    if bit p d then .inner l (r.update (d + 1) p v) else .inner (l.update (d + 1) p v) r
+  | .ext bits c, d, p, v =>
+    -- ext.split(path, depth)
+    let m := lcp bits (p.drop d)
+    if m.length = bits.length then .ext bits (c.update (d + bits.length) p v)   -- full match: descend
+    else
+      -- the extension's own bit at the first mismatch, and what follows it
+      let myBit := (bits.drop m.length).headD false
+      let post := (bits.drop m.length).tail
+      mkExt m (innerOn myBit (mkExt post c) (.leaf p v))
+
+/-- What `smt.delete` returns for an inner node whose child on side `s` is now `child'`. -/
+def afterDelete (s : Bool) (child' sib : T) : T :=
+  match child', sib with
+  | .nil, .leaf q w => .leaf q w
+  | .nil, .ext nb nc => .ext ((!s) :: nb) nc          -- absorb: n.pathBounds[0]--
+  | .leaf q w, .nil => .leaf q w
+  | .ext nb nc, .nil => .ext (s :: nb) nc
+  | c, o => if s then .inner o c else .inner c o
+
+/-- `smt.delete` at depth `d` (an absent key leaves the trie as it is). -/
+def T.delete : T → Nat → Path → T
+  | .nil, _, _ => .nil
+  | .leaf q w, _, p => if q = p then .nil else .leaf q w
+  | .inner l r, d, p =>
+    if bit p d then afterDelete true (r.delete (d + 1) p) l else afterDelete false (l.delete (d + 1) p) r
+  | .ext bits c, d, p =>
+    if bits.isPrefixOf (p.drop d) then
+      match c.delete (d + bits.length) p with
+      | .leaf q w => .leaf q w                          -- the leaf moves above the extension
+      | .ext nb nc => .ext (bits ++ nb) nc              -- join with the child extension
+      | c' => .ext bits c'
+    else .ext bits c
+
+/-- `smt.Get` at depth `d`. -/
+def T.get : T → Nat → Path → Option Val
+  | .nil, _, _ => none
+  | .leaf q w, _, p => if q = p then some w else none
+  | .inner l r, d, p => if bit p d then r.get (d + 1) p else l.get (d + 1) p
+  | .ext bits c, d, p => if bits.isPrefixOf (p.drop d) then c.get (d + bits.length) p else none
+
+def applyOpT (t : T) : TOp → T
+  | .put p v => t.update 0 p v
+  | .del p => t.delete 0 p
+
+def runOpsT (ops : List TOp) : T := ops.foldl applyOpT .nil
 
 end Hive.Ads.SMT
